@@ -202,31 +202,35 @@ def rule_k6(chk: Check, F, ix: Index, thorough: bool):
     evaluation); and a search path has a unique end (an escaped backtick does not end it)."""
     import copy
     f = ix.get("TokenizerState.in_continued_string")
-    rets = [n for n in own_nodes(f.node) if isinstance(n, ast.Return)]
     chk.count("K6-continuation")
-    if len(rets) != 1:
-        chk.fail("K6-continuation", "in_continued_string", f.where, "continuation test is no longer a single expression")
+    # decided by evaluating the test from source: a one-quote string goes on exactly when a string is open and its line ends in an
+    # *unescaped* backslash before LF / CRLF — an odd number of backslashes (`'a\\\\` + newline ends in an escaped backslash: CPython
+    # reports an unterminated string literal there)
+    import types as _types
+    from .c17 import EvalError as _EvErr, _mini_eval as _mini
+    BS = "\\"
+    cases = {"'abc" + BS + "\n": True, "'abc" + BS + "\r\n": True, "'abc\n": False, "'abc\r\n": False, "'abc": False, BS + "\n": True,
+             "x" + BS + " \n": False, "'a" + BS * 2 + "\n": False, "'a" + BS * 3 + "\n": True, "'a" + BS * 2 + "\r\n": False,
+             "'a" + BS * 4 + "\n": False, "'a" + BS: False, "": False, "\n": False}
+    bad, und = [], ""
+    for line, want in cases.items():
+        try:
+            got = bool(_mini(f.node, {"self": _types.SimpleNamespace(line=line, end_progs=(1,))}, set()))
+        except _EvErr as e:
+            und = str(e)
+            break
+        if got != want:
+            bad.append((line, got))
+    if und:
+        chk.undecided("K6-continuation", "in_continued_string", f.where, f"continuation test not evaluable: {und}")
     else:
-        class Sub(ast.NodeTransformer):
-            def visit_Attribute(self, node):
-                s0 = norm_stmt(node)
-                if s0 == "self.line":
-                    return ast.copy_location(ast.Name("_line", ast.Load()), node)
-                if s0 == "self.end_progs":
-                    return ast.copy_location(ast.Name("_ep", ast.Load()), node)
-                return self.generic_visit(node)
-        expr = Sub().visit(copy.deepcopy(rets[0].value))
-        ast.fix_missing_locations(expr)
-        cases = {"'abc\\\n": True, "'abc\\\r\n": True, "'abc\n": False, "'abc\r\n": False, "'abc": False, "\\\n": True, "x\\ \n": False}
-        bad = []
-        for line, want in cases.items():
-            got = bool(constfold.fold_expr(expr, {"_line": line, "_ep": (1,)}))
-            if got != want:
-                bad.append((line, got))
-        off = bool(constfold.fold_expr(expr, {"_line": "'abc\\\n", "_ep": ()}))
+        try:
+            off = bool(_mini(f.node, {"self": _types.SimpleNamespace(line="'abc" + BS + "\n", end_progs=())}, set()))
+        except _EvErr:
+            off = False
         chk.require(not bad and not off, "K6-continuation", "in_continued_string", f.where,
-                    f"a one-quote string continues on the next line exactly when its line ends in backslash + LF or backslash + CRLF "
-                    f"(and a string is open); the test gives {bad or 'True with no open string'}")
+                    f"a one-quote string continues on the next line exactly when a string is open and its line ends in an unescaped backslash "
+                    f"(an odd number of them) + LF or CRLF; the test gives (line, answer) {bad or 'True with no open string'}")
     # the "line goes on" flag is consumed by the line it was set for: whenever the line loop takes neither the open-string
     # branch nor the new-statement branch, it clears the flag (or raises) before scanning the line — otherwise the next
     # logical line skips indentation handling
